@@ -3,6 +3,8 @@ import json, random, collections, os, re, subprocess
 import vlib
 from vlib import Infra, log
 LEVEL = "model_checking"
+GROUPS = ["ctx"]
+REPLAY_STATELESS = False
 MODULE = "C20_Context.tla"
 TRACE = (MODULE, "C20_trace.cfg")
 REG = dict(category="model_checking",
